@@ -119,22 +119,26 @@ SPECS = {
         clauses=["Accepts", "Compiles", "BookingFault", "RowsMatch", "SpuriousFault", "SchemaMatches"],
         profiles={"quick": [("MCQueryGen_userfn.cfg", None, {"fnmd": True}), ("MCQueryGen_userfn_d.cfg", None, {"fnmd": True}),
                             ("MCQueryGen_userfn_f.cfg", None, {"fnmd": True, "cap": {"quick": 210, "thorough": 2500}}),
-                            ("MCQueryGen_userfn_e.cfg", None, {"fnmd": True, "cap": {"quick": 300, "thorough": 3000}})],
+                            ("MCQueryGen_userfn_e.cfg", None, {"fnmd": True, "cap": {"quick": 300, "thorough": 3000}}),
+                            ("MCQueryGen_userfn_m.cfg", None, {"fnmd": True, "cap": {"quick": 160, "thorough": 160}})],
                   "thorough": [("MCQueryGen_userfn_t.cfg", None, {"fnmd": True}),
                                ("MCQueryGen_userfn_ft.cfg", None, {"fnmd": True, "cap": {"quick": 210, "thorough": 2500}}),
-                               ("MCQueryGen_userfn_et.cfg", None, {"fnmd": True, "cap": {"quick": 300, "thorough": 3000}})]},
+                               ("MCQueryGen_userfn_et.cfg", None, {"fnmd": True, "cap": {"quick": 300, "thorough": 3000}}),
+                               ("MCQueryGen_userfn_m.cfg", None, {"fnmd": True, "cap": {"quick": 160, "thorough": 160}})]},
         events={"quick": 6, "thorough": 16},
-        cap={"quick": 1300, "thorough": 7000},
+        cap={"quick": 1460, "thorough": 7000},
     ),
     "C12": pcheck.PSpec(
         "C12",
         clauses=["Accepts", "Compiles", "RowsMatch", "SpuriousFault", "BookingFault", "SchemaMatches"],
         profiles={"quick": [("MCQueryGen_math.cfg", None), ("MCQueryGen_math_ctx.cfg", None),
-                            ("MCQueryGen_mathfirst.cfg", None, {"cap": {"quick": 240, "thorough": 1000}})],
+                            ("MCQueryGen_mathfirst.cfg", None, {"cap": {"quick": 240, "thorough": 1000}}),
+                            ("MCQueryGen_mathint.cfg", None, {"cap": {"quick": 1400, "thorough": 1400}})],
                   "thorough": [("MCQueryGen_math.cfg", None), ("MCQueryGen_math_ctx.cfg", None),
-                               ("MCQueryGen_mathfirst.cfg", None, {"cap": {"quick": 240, "thorough": 1000}})]},
+                               ("MCQueryGen_mathfirst.cfg", None, {"cap": {"quick": 240, "thorough": 1000}}),
+                               ("MCQueryGen_mathint.cfg", None, {"cap": {"quick": 1400, "thorough": 1400}})]},
         events={"quick": 4, "thorough": 10},
-        cap={"quick": 1040, "thorough": 8000},
+        cap={"quick": 2440, "thorough": 9000},
         math=True,
         stratify=_first_math,
     ),
